@@ -20,7 +20,7 @@ REPO_DIR="${VERIF_REPO:-${VP_RUN_REPO:-/repo}}"
 if [ "$REPO_DIR" != "/repo" ]; then
     ALT="$TARGET/alt-harness"
     mkdir -p "$ALT"
-    rsync -a --delete --exclude target "$HARNESS/" "$ALT/"
+    rsync -a --delete --exclude "target*" "$HARNESS/" "$ALT/"
     sed -i "s#\"/repo/#\"$REPO_DIR/#g" "$ALT/Cargo.toml"
     HARNESS="$ALT"
 fi
@@ -41,11 +41,21 @@ build() {
 fuzz_targets_for() {
     case "$1" in
         C01) echo "chunk_roundtrip" ;;
+        C02) echo "pt_interop" ;;
         C03) echo "deser message server client handshake" ;;
+        C04) echo "pt_amf0_roundtrip" ;;
+        C05) echo "pt_handshake" ;;
         C06) echo "foreign_stream" ;;
+        C08) echo "pt_drop_subsets" ;;
+        C09) echo "pt_model_server" ;;
+        C10) echo "pt_model_client" ;;
         C12) echo "amf0_diff" ;;
+        C13) echo "pt_msg_roundtrip" ;;
         C14) echo "amf0_decode" ;;
         C15) echo "split" ;;
+        C16) echo "pt_interleave" ;;
+        C17) echo "pt_ack" ;;
+        C18) echo "pt_session_emit" ;;
         *) echo "" ;;
     esac
 }
